@@ -20,6 +20,7 @@ octet for octet behind the RHL.
 from __future__ import annotations
 
 import queue
+import re
 import threading
 import zlib
 
@@ -71,6 +72,7 @@ ASSUMPTIONS = [
 ]
 
 MULTI = ("tsb", "gbc", "gac", "guc", "ls_request", "ls_reply")
+TIMER_THREAD = 99     # station thread on which expired CBF timers run (receive threads: 0, 1, 2, ...)
 EGO = (415000000, 21000000)
 FAR = (EGO[0] + 200000, EGO[1] + 200000)     # about 2.8 km away: outside every area centred at EGO used here
 
@@ -440,8 +442,16 @@ class Station:
         for k, t in self.r._cbf_buffer.items():
             x = f"{k[0].encode_to_int()}:{k[1]}"
             if wire:
-                pdu = bytes(t.args[1]) if len(getattr(t, "args", [])) > 1 else b"\0"
-                x += ":" + (f"S{self.mid(pdu[4:])}" if pdu[0] & 0x0F == 2 else "P")
+                # kind of the finished PDU the timer holds - when it holds one: what a Timer keeps in its arguments is a
+                # representation detail of the code (it may keep headers and assemble at expiry); then the kind is
+                # unknown here ("?", compared as a wildcard) and only the frame sent at expiry is judged
+                a = getattr(t, "args", None)
+                pdu = a[1] if isinstance(a, (list, tuple)) and len(a) > 1 else None
+                if isinstance(pdu, (bytes, bytearray, memoryview)) and len(pdu) >= 4:
+                    pdu = bytes(pdu)
+                    x += ":" + (f"S{self.mid(pdu[4:])}" if pdu[0] & 0x0F == 2 else "P")
+                else:
+                    x += ":?"
             out.append(x)
         return " ".join(out)
 
@@ -480,6 +490,8 @@ class Station:
                 out.append(f"arm {e[1][0]} {e[1][1]} {e[2]}")
             elif e[0] == "cancel":
                 out.append(f"cancel {e[1][0]} {e[1][1]}")
+            elif e[0] == "exc":
+                out.append(f"exc {e[1]} {e[2]}")      # never an output of the model
         return (" | ".join(out) if out else "-") + " # " + (self.buf_str(wire) if buf is None else buf)
 
     def wire_frame(self, plain_fr: bytes, mode, gen_ms):
@@ -517,7 +529,12 @@ class Station:
                 nopts["thr"] = thr + 1          # a nested reception runs on a receive thread of its own
             self.nested = lambda: self.rx(nfr, now, nopts)
         with rs.quiet():
-            self.on_thread(thr, lambda: self.r.gn_data_indicate(wire_fr))
+            try:
+                self.on_thread(thr, lambda: self.r.gn_data_indicate(wire_fr))
+            except Infra:
+                raise
+            except Exception as e:  # noqa: BLE001 - whatever the real code raises into the receive loop is an observation
+                self.log.append(("exc", "rx", type(e).__name__))
         inner = self.nested_result if self.nested is None else None     # None when the callback was never reached
         snap = self.snap
         self.nested, self.snap = None, None
@@ -547,8 +564,15 @@ class Station:
         if t is None:
             t = self.dead.pop(key, None)      # expiry racing with a cancellation: _cbf_timeout must find nothing to send
         if t is not None:
+            # threading.Timer runs the callback on a thread of its own: never a receive thread, so whatever the receive
+            # path keeps per thread (the receive context of process_security_header) is not there at expiry
             with rs.quiet():
-                t.fire()
+                try:
+                    self.on_thread(TIMER_THREAD, t.fire)
+                except Infra:
+                    raise
+                except Exception as e:  # noqa: BLE001 - an exception kills the timer thread: judged, not a harness crash
+                    self.log.append(("exc", "timer", type(e).__name__))
         entries = self.log
         self.log = []
         return self.canon(entries, None, wire=wire), entries, f"wfire {key[0]} {key[1]}"
@@ -750,6 +774,9 @@ class StationOracle:
 
     def fire(self, key, entries):
         sends = [e for e in entries if e[0] == "send"]
+        for e in entries:
+            if e[0] == "exc" and key in self.armed:
+                self.flag(f"CBF timer of {key} expired: the callback raised {e[2]} - the buffered copy is lost with the timer thread")
         if key in self.armed:
             cause = self.armed.pop(key)
             if len(sends) != 1:
@@ -1087,6 +1114,13 @@ def check_single(ctx, case, clock, use_model=True):
                 ctx.cover("act_" + a.split(" ")[0])
             continue
         ctx.cover("op_" + (t[6] if t[0] == "wrx" else "fire"))
+        if t[0] == "wfire":
+            # the CBF timer path on the timer thread: the copy of a packet received secured must leave with its envelope
+            acts = out.split(" # ")[0]
+            if "sends " in acts:
+                ctx.cover("cbf_expiry_sends_secured_copy")
+            elif "send " in acts:
+                ctx.cover("cbf_expiry_sends_plain_copy")
         for a in out.split(" # ")[0].split(" | "):
             ctx.cover("act_" + a.split(" ")[0])
         if t[0] == "wrx":
@@ -1122,6 +1156,9 @@ def check_single(ctx, case, clock, use_model=True):
     ctx.nontrivial(("single", case["cfg"]["base"], len(case["ops"]), case["cfg"]["dpl"], case["cfg"]["cbf"]))
 
 
+_BUF_KIND = re.compile(r"(\d+:\d+):(?:P|S\d+)")
+
+
 def flush_model(ctx):
     batch = ctx.extra.pop("_batch", [])
     if not batch or not ctx.model_ok:
@@ -1133,7 +1170,11 @@ def flush_model(ctx):
     k = 0
     for case, outs, ls in batch:
         for i, r in enumerate(outs):
-            if r != mo[k + i]:
+            m = mo[k + i]
+            if ":?" in r.partition(" # ")[2] and " # " in m:
+                # the real timer does not hold a finished PDU (see Station.buf_str): compare the buffer keys only
+                m = m.partition(" # ")[0] + " # " + _BUF_KIND.sub(r"\1:?", m.partition(" # ")[2])
+            if r != m:
                 ctx.mismatch("router.history", {"case": case,
                                                 "line": ls[i]}, r, mo[k + i])
                 break
@@ -1389,6 +1430,219 @@ def check_topo(ctx, case, clock, use_model=True):
     ctx.nontrivial(("topo", case["seed"]))
 
 
+# ------------------------------------------------------------------------------------------------ two receive threads
+
+def _loct_mod():
+    import flexstack.geonet.location_table as loct_mod
+    return loct_mod
+
+
+def conc_codes():
+    """code objects traced at opcode granularity: every method of the location table and of its entries (the rest of
+    router.py / location_table.py is pre-empted at line granularity and at every lock boundary)"""
+    lm = _loct_mod()
+    out = []
+    for cls in (lm.LocationTable, lm.LocationTableEntry):
+        for f in vars(cls).values():
+            f = getattr(f, "__func__", f)
+            if hasattr(f, "__code__"):
+                out.append(f.__code__)
+    return out
+
+
+def gen_conc(rng):
+    """Two link-layer receive threads on ONE router (each reception = `gn_data_indicate` as a link layer's receive loop calls
+    it), then - sequentially - exact duplicates of everything, then the CBF timers.  Thread B receives the FIRST multi-hop
+    packet(s) of a source the station may never have heard of (its LocTE and duplicate packet list are created by that
+    reception); thread A receives beacons / SHBs / multi-hop packets of other sources (every reception purges the location
+    table twice) or the very same frame as B.  The clock stands still and every position vector is fresh: nothing expires,
+    and no source sends more distinct sequence numbers than the duplicate packet list holds - so EVERY (SO,SN) is inside
+    the duplicate-detection window for the whole case."""
+    cfg = dict(lifetime_s=rng.choice([5, 20]), dpl=rng.choice([2, 4, 8]), cbf=rng.randrange(2), pdr_max=10**9,
+               base=rng.randrange(10**9, 10**12), sec=[0, 0])
+    me, S, N, third = addr_int(1), addr_int(31), addr_int(32), addr_int(77)
+    now = cfg["base"]
+    sn = {S: rng.choice([0, 100, 65535]), N: rng.randrange(65536)}
+    pos = {S: (EGO[0] + 9000, EGO[1] - 4000), N: (EGO[0] - 7000, EGO[1] + 12000)}
+
+    def multi(a, kind=None):
+        kind = kind or rng.choice(["tsb", "tsb", "gbc", "gbc", "gac", "ls_request", "guc"])
+        k = sn[a]
+        sn[a] = (k + 1) % 65536
+        kw = dict(sn=k, rhl=rng.choice([2, 3, 10]), mhl=10, payload=b"c" + bytes([k >> 8, k & 255]))
+        if kind == "gbc":
+            kw["area"] = (EGO[0], EGO[1], 800, 800, 0)
+        if kind == "gac":
+            kw["area"] = (FAR[0], FAR[1], 300, 300, 0)
+        if kind == "guc":
+            kw["de"] = spv(third, now, 7, 8)
+        if kind == "ls_request":
+            kw["de"] = third
+        T = now - rng.randrange(0, 900)
+        return ["rx", frame(kind, lpv(a, T, *pos[a]), **kw).hex(), T, now]
+
+    def single(a):
+        T = now - rng.randrange(0, 900)
+        return ["rx", frame(rng.choice(["beacon", "shb"]), lpv(a, T, *pos[a]), payload=b"s").hex(), T, now]
+
+    pre = []
+    if rng.random() < 0.3:
+        pre.append(single(S) if rng.random() < 0.5 else multi(S))      # S is already known
+    if rng.random() < 0.5:
+        pre.append(single(N))
+    tb = [multi(S)]
+    if rng.random() < 0.3:
+        tb.append(multi(S))
+    ta = []
+    for _ in range(rng.randrange(1, 3)):
+        x = rng.random()
+        ta.append(single(N) if x < 0.5 else multi(N) if x < 0.8 else list(rng.choice(tb)))
+    threads = [ta, tb]
+    if rng.random() < 0.5:
+        threads.reverse()
+    dup = [list(op) for th in threads for op in th if decode(bytes.fromhex(op[1]))["kind"] in MULTI]
+    rng.shuffle(dup)
+    return {"kind": "conc", "cfg": cfg, "self": me, "ego": list(EGO), "pre": pre, "threads": threads, "post": dup,
+            "schedule": []}
+
+
+def rle(xs):
+    """run-length form of a schedule (a list of thread ids, one per branching step): [[tid, n], ...]"""
+    out = []
+    for x in xs:
+        if out and out[-1][0] == x:
+            out[-1][1] += 1
+        else:
+            out.append([x, 1])
+    return out
+
+
+def unrle(xs):
+    out = []
+    for x in xs or []:
+        if isinstance(x, (list, tuple)):
+            out += [x[0]] * x[1]
+        else:
+            out.append(x)
+    return out
+
+
+class ConcRun:
+    """one execution of a `conc` case on a real Router under harness/dsched.py (locks of router.py / location_table.py
+    replaced by scheduler-aware ones, exactly one thread runs at a time, pre-emption at lock boundaries, at every line of
+    the two files and at every shared-state bytecode of the location table).  Judged by counting, independently of the
+    code: every (SO,SN) is inside the duplicate-detection window for the whole case (see gen_conc), so it may be delivered
+    at most once and re-transmitted (immediately or at CBF timer expiry) at most once."""
+
+    def __init__(self, case, policy, clock, max_steps=60000):
+        import dsched
+        lm = _loct_mod()
+        VTimer.stations.clear()
+        cfg = dict(case["cfg"], sec=[0, 0])
+        self.bad, self.abort, self.excs = [], None, []
+        with dsched.patched([router_mod, lm], extra={"Timer": VTimer}):
+            st = Station(clock, cfg, case["self"], tuple(case.get("ego", EGO)))
+            try:
+                st.set_now(cfg["base"])
+                st.log = []
+                with rs.quiet():
+                    for op in case.get("pre", []):
+                        st.r.gn_data_indicate(bytes.fromhex(op[1]))
+                s = dsched.DSched(policy, line_files=[router_mod.__file__, lm.__file__], opcode_codes=conc_codes(),
+                                  max_steps=max_steps)
+
+                def body(ops):
+                    def f():
+                        for op in ops:
+                            st.r.gn_data_indicate(bytes.fromhex(op[1]))
+                    return f
+                for ti, ops in enumerate(case["threads"]):
+                    s.spawn(body(ops), name=f"T{ti}")
+                with rs.quiet():
+                    s.run(timeout=30.0)
+                self.steps = s.steps
+                self.choices = [c[0] for c in s.steps]
+                self.abort = s.abort_reason
+                if s.deadlock:
+                    self.abort = f"deadlock {s.deadlock}"
+                self.excs = [type(t.exc).__name__ for t in s.threads if t.exc is not None]
+                if self.abort is None:
+                    with rs.quiet():
+                        for op in case.get("post", []):
+                            st.r.gn_data_indicate(bytes.fromhex(op[1]))
+                        for key in list(st.timers):
+                            t = st.timers.pop(key, None)
+                            if t is not None:
+                                try:
+                                    st.on_thread(TIMER_THREAD, t.fire)
+                                except Infra:
+                                    raise
+                                except Exception as e:  # noqa: BLE001
+                                    self.excs.append(type(e).__name__)
+                self.log = st.log
+            finally:
+                st.close()
+        ids = {}
+        for ph in [case.get("pre", [])] + list(case["threads"]) + [case.get("post", [])]:
+            for op in ph:
+                d = decode(bytes.fromhex(op[1]))
+                if d["kind"] in MULTI:
+                    ids[(d["so"], d["sn"])] = d["kind"]
+        self.count = {k: [0, 0] for k in ids}
+        for e in self.log:
+            if e[0] == "send":
+                q = try_decode(e[1])
+                if q is not None and q["kind"] in MULTI and q["so"] != case["self"] and (q["so"], q["sn"]) in self.count:
+                    self.count[(q["so"], q["sn"])][1] += 1
+            elif e[0] == "deliver":
+                ind = e[1]
+                so = ind.source_position_vector.gn_addr.encode_to_int() if ind.source_position_vector else -1
+                data = bytes(ind.data or b"")
+                if len(data) == 3 and data[0:1] == b"c" and (so, data[1] * 256 + data[2]) in self.count:
+                    self.count[(so, data[1] * 256 + data[2])][0] += 1
+        for (so, sn), (dl, tx) in sorted(self.count.items()):
+            if dl > 1 or tx > 1:
+                self.bad.append(f"two receive threads: {ids[(so, sn)]} ({so},{sn}) was delivered {dl} time(s) and re-transmitted "
+                                f"{tx} time(s) inside the duplicate-detection window (no entry can have expired: the clock "
+                                f"stands still and every position vector is fresh)")
+
+
+def check_conc(ctx, case, clock, cap, pct=2):
+    """coarse schedules (a thread is switched where it takes / releases a lock, starts or ends) with at most one
+    pre-emption in breadth-first order, then a few PCT schedules at full granularity"""
+    import dsched
+    found = []
+
+    def handle(run):
+        ctx.evals(1)
+        ctx.cover("conc_schedules")
+        ctx.cover("conc_preemptions_%d" % min(dsched.preemptions(run.steps), 3))
+        if run.abort or run.excs:
+            ctx.mismatch("router.conc_abort", {"case": dict(case, schedule=rle(run.choices))}, f"{run.abort} {run.excs}", "both receptions complete")
+        if run.bad and not found:
+            found.append(run)
+            ctx.violation(run.bad[0], dict(case, schedule=rle(run.choices)))
+        if any(v[0] for v in run.count.values()):
+            ctx.cover("conc_runs_with_delivery")
+        return run
+
+    def once(prefix):
+        if found:
+            return []
+        return handle(ConcRun(case, dsched.Replay(prefix), clock)).steps
+    dsched.enumerate_schedules(once, 1, cap, ctx.rng, kinds=dsched.COARSE_KINDS, order="bfs")
+    est = 400
+    for i in range(pct):
+        if found:
+            break
+        r = handle(ConcRun(case, dsched.PCT(ctx.rng, depth=2 + i % 2, est_steps=est), clock))
+        est = max(est, len(r.steps))
+    ctx.cover("conc_cases")
+    ctx.cover("conc_cfg_cbf" if case["cfg"]["cbf"] else "conc_cfg_simple")
+    ctx.nontrivial(("conc", case["cfg"]["base"], len(case["post"])))
+    return bool(found)
+
+
 # ------------------------------------------------------------------------------------------------ entry points
 
 class Patched:
@@ -1424,6 +1678,8 @@ def run(ctx):
                 check_single(ctx, c, clock)
             elif c.get("kind") == "topo":
                 check_topo(ctx, c, clock)
+            elif c.get("kind") == "conc":
+                replay_conc(ctx, c, clock)
             ctx.cover("corpus_cases")
         for i in range(ctx.scale(250, 9000)):       # (real ECDSA verification on about a third of the receptions)
             case = gen_single(ctx.rng, ctx.rng.randrange(5, ctx.scale(50, 120)))
@@ -1435,7 +1691,21 @@ def run(ctx):
             check_topo(ctx, case, clock)
             if i == 0:
                 ctx.sample("topology", {k: case[k] for k in ("n", "shape", "floods", "cfg")})
+        for i in range(ctx.scale(5, 150)):          # two receive threads under the deterministic scheduler
+            case = gen_conc(ctx.rng)
+            check_conc(ctx, case, clock, cap=ctx.scale(30, 200), pct=ctx.scale(2, 10))
+            if i == 0:
+                ctx.sample("conc", {k: case[k] for k in ("cfg", "threads")})
         flush_model(ctx)
+
+
+def replay_conc(ctx, case, clock):
+    import dsched
+    run = ConcRun(case, dsched.Replay(unrle(case.get("schedule", []))), clock)
+    ctx.evals(1)
+    if run.bad:
+        ctx.violation(run.bad[0], case)
+    return run
 
 
 def search(ctx):
@@ -1449,10 +1719,16 @@ def search(ctx):
                     check_single(ctx, inp["case"], clock, use_model=False)
                 elif isinstance(inp, dict) and isinstance(inp.get("case"), dict) and inp["case"].get("kind") == "topo":
                     check_topo(ctx, inp["case"], clock, use_model=False)
+                elif isinstance(inp, dict) and isinstance(inp.get("case"), dict) and inp["case"].get("kind") == "conc":
+                    replay_conc(ctx, inp["case"], clock)
             for _ in range(ctx.scale(750, 12000)):
                 if ctx.violations:
                     break
                 check_single(ctx, gen_single(ctx.rng, ctx.rng.randrange(5, 60)), clock, use_model=False)
+            for _ in range(ctx.scale(15, 300)):
+                if ctx.violations:
+                    break
+                check_conc(ctx, gen_conc(ctx.rng), clock, cap=ctx.scale(90, 400), pct=ctx.scale(6, 20))
             for _ in range(ctx.scale(120, 3000)):
                 if ctx.violations:
                     break
@@ -1476,4 +1752,13 @@ def replay(ctx, obj):
                 print(what + (f" [{kf}]" if kf else ""))
             print(stats)
             return any(kf is None or kf not in known for _, kf in bad)
+        if case.get("kind") == "conc":
+            import dsched
+            run = ConcRun(case, dsched.Replay(unrle(case.get("schedule", []))), clock)
+            for w in run.bad:
+                print(w)
+            if run.abort or run.excs:
+                print("run aborted:", run.abort, run.excs)
+            print({f"{k[0]}:{k[1]}": v for k, v in run.count.items()})
+            return bool(run.bad)
     raise Infra(f"unknown replay kind {case.get('kind')}")
